@@ -103,7 +103,8 @@ def run_unit(name, keep_smt2=2):
     obs = []
     ends = {}
     for p in paths:
-        ends[p.end.split(":")[0] if p.end.startswith("end:") else p.end] = ends.get(p.end, 0) + 1
+        ek = p.end.split(":")[0] if p.end.startswith("end:") else p.end
+        ends[ek] = ends.get(ek, 0) + 1
         if p.end == "infeasible":
             res.paths_infeasible += 1
             continue
